@@ -34,6 +34,14 @@ class Routes:
     def __init__(self, ctx, db, aff):
         self.ctx, self.db, self.aff = ctx, db, aff
         self.seen_routes = set()
+        self.legacy = {}  # current symbol -> [legacy spellings]
+        try:
+            from .c16 import derive_spellings, substitutions
+
+            for leg, cur in sorted(derive_spellings(sorted(aff), substitutions()).items()):
+                self.legacy.setdefault(cur, []).append(leg)
+        except Exception:
+            self.legacy = {}
 
     def bad(self, route, clause, case, detail):
         self.ctx.violation("route:%s:%s" % (route, clause), dict(detail, case=case, route=route), replay=case)
@@ -220,6 +228,26 @@ class Routes:
                     self.cmp("FixedArray.ChangingIndex(keep unit)[i]", ci2.values[0], [db.Convert(qt, v, u, 5.0)], case, av, au, [5.0])
                     self.cmp("FixedArray.ChangingIndex(keep unit)", list(ci2.values)[1:], [float(t) for t in vals[1:]], case, None, None, vals[1:])
                     self.meta("FixedArray.ChangingIndex(keep unit)", ci2, c, qt, u, case)
+                    # the amount as (value, unit) and as (None, unit): "the element as it is, re-expressed"
+                    back5 = db.Convert(qt, v, u, 5.0)
+                    t1 = fa.ChangingIndex(0, (5.0, v))
+                    self.cmp("FixedArray.ChangingIndex((x,v))[i]", t1.values[0], [5.0], case, None, None, [5.0])
+                    self.cmp("FixedArray.ChangingIndex((x,v))", list(t1.values)[1:], rr[1:], case, au, av, vals[1:])
+                    self.meta("FixedArray.ChangingIndex((x,v))", t1, c, qt, v, case)
+                    t2 = fa.ChangingIndex(0, (5.0, v), use_value_unit=False)
+                    self.cmp("FixedArray.ChangingIndex((x,v), keep unit)[i]", t2.values[0], [back5], case, av, au, [5.0])
+                    self.cmp("FixedArray.ChangingIndex((x,v), keep unit)", list(t2.values)[1:], [float(t) for t in vals[1:]], case, None, None, vals[1:])
+                    self.meta("FixedArray.ChangingIndex((x,v), keep unit)", t2, c, qt, u, case)
+                    t3 = fa.ChangingIndex(i, (None, v))
+                    self.cmp("FixedArray.ChangingIndex((None,v))", list(t3.values), rr, case, au, av, vals)
+                    self.meta("FixedArray.ChangingIndex((None,v))", t3, c, qt, v, case)
+                    t4 = fa.ChangingIndex(i, (None, v), use_value_unit=False)
+                    self.cmp("FixedArray.ChangingIndex((None,v), keep unit)[i]", t4.values[i], [db.Convert(qt, v, u, rr[i])], case, av, au, [rr[i]])
+                    self.cmp("FixedArray.ChangingIndex((None,v), keep unit)", list(t4.values)[:i], [float(t) for t in vals[:i]], case, None, None, vals[:i])
+                    self.meta("FixedArray.ChangingIndex((None,v), keep unit)", t4, c, qt, u, case)
+                    t5 = fa.ChangingIndex(0, 5.0)  # a plain amount is an amount in the array's own unit
+                    self.cmp("FixedArray.ChangingIndex(x)", list(t5.values), [5.0] + [float(t) for t in vals[1:]], case, None, None, [5.0] + vals[1:])
+                    self.meta("FixedArray.ChangingIndex(x)", t5, c, qt, u, case)
 
         def usm_routes():
             m = UnitSystemManager()
@@ -255,7 +283,46 @@ class Routes:
             self.cmp("FractionScalar.CreateCopy(unit)", float(fc.GetValue()), [r0], case, au, av, [x0])
             self.meta("FractionScalar.CreateCopy(unit)", fc, c, qt, v, case)
 
+        def legacy_routes():
+            # the unit asked for (or given) in a legacy spelling: same numbers, and the object keeps *its* category
+            for lv in self.legacy.get(v, ())[:2]:
+                s = Scalar(c, x0, u)
+                self.cmp("Scalar.GetValue(legacy v)", s.GetValue(lv), [r0], case, au, av, [x0])
+                cp = s.CreateCopy(unit=lv)
+                self.cmp("Scalar.CreateCopy(unit=legacy v)", cp.value, [r0], case, au, av, [x0])
+                self.meta("Scalar.CreateCopy(unit=legacy v)", cp, c, qt, v, case)
+                ac = Array(c, list(xs), u).CreateCopy(unit=lv)
+                self.cmp("Array.CreateCopy(unit=legacy v)", ac.values, ref, case, au, av, xs, list)
+                self.meta("Array.CreateCopy(unit=legacy v)", ac, c, qt, v, case)
+                o = Owner()
+                o.a = s
+                ChangeScalars(o, a=(None, lv))
+                self.cmp("ChangeScalars(legacy v)", o.a.value, [r0], case, au, av, [x0])
+                self.meta("ChangeScalars(legacy v)", o.a, c, qt, v, case)
+                q = ObtainQuantity(lv, c)
+                self.meta("ObtainQuantity(legacy v, category)", q, c, qt, v, case)
+                fa = FixedArray(len(xs), c, list(xs), u)
+                ias = fa.IndexAsScalar(0, q)
+                self.cmp("FixedArray.IndexAsScalar(legacy v)", ias.value, [r0], case, au, av, [x0])
+                self.meta("FixedArray.IndexAsScalar(legacy v)", ias, c, qt, v, case)
+                t = fa.ChangingIndex(0, (None, lv))
+                self.cmp("FixedArray.ChangingIndex((None,legacy v))", list(t.values), ref, case, au, av, xs)
+                self.meta("FixedArray.ChangingIndex((None,legacy v))", t, c, qt, v, case)
+                fc = FractionScalar(c, float(x0), u).CreateCopy(unit=lv)
+                self.cmp("FractionScalar.CreateCopy(unit=legacy v)", float(fc.GetValue()), [r0], case, au, av, [x0])
+                self.meta("FractionScalar.CreateCopy(unit=legacy v)", fc, c, qt, v, case)
+                self.cmp("UnitDatabase.Convert(category name, u, legacy v)", db.Convert(c, u, lv, float(x0)), [r0], case, au, av, [x0])
+            for lu in self.legacy.get(u, ())[:2]:
+                s = Scalar(c, x0, lu)
+                self.meta("Scalar(category, x, legacy u)", s, c, qt, u, case)
+                self.cmp("Scalar(legacy u).GetValue", s.GetValue(v), [r0], case, au, av, [x0])
+                a = Array(c, list(xs), lu)
+                self.meta("Array(category, xs, legacy u)", a, c, qt, u, case)
+                self.cmp("Array(legacy u).GetValues", a.GetValues(v), ref, case, au, av, xs, list)
+
         G("Scalar routes", case, scalar_routes)
+        if self.legacy:
+            G("legacy spelling routes", case, legacy_routes)
         G("UnitDatabase.Convert routes", case, db_routes)
         G("Array/FixedArray routes", case, array_routes)
         G("UnitSystemManager routes", case, usm_routes)
